@@ -67,7 +67,10 @@ fn valve_batches(rng: &mut StdRng, ctx: &Ctx, engine: &Value, appid: u32) -> Vec
         }
         if rng.gen_bool(0.3) {
             let k = rng.gen_range(2 ..= 3);
-            out.push(valve::split(rng, &ctx.v, &payload, k, engine["t"] == "goldsrc", true, false));
+            let gold = engine["t"] == "goldsrc";
+            // (Source servers may compress a split reply)
+            let compressed = !gold && rng.gen_bool(0.4);
+            out.push(valve::split(rng, &ctx.v, &payload, k, gold, true, compressed));
         } else {
             out.push(vec![payload]);
         }
@@ -517,6 +520,17 @@ pub fn structured(ctx: &Ctx, entries: &[String], seed: u64, nbases: usize, max_p
                     let applied = MUT.with(|p| p.borrow_mut().take().unwrap().applied);
                     if applied {
                         run_case(&b, &json!({"stage":"structured","mutation":d,"item":gi,"byte":sub}), rep, trace, journal);
+                        // size / count fields at their extremes also with the datagrams of a reply in reverse order (a check
+                        // that is made on the first datagram received must not depend on which one that is)
+                        if matches!(op, "set_num" | "set_lit_byte" | "set_textnum") && b.conns.iter().any(|(_, bs)| bs.iter().any(|x| x.len() > 1)) {
+                            let mut b2 = b.clone();
+                            for (_, bs) in &mut b2.conns {
+                                for x in bs.iter_mut() {
+                                    x.reverse();
+                                }
+                            }
+                            run_case(&b2, &json!({"stage":"structured","mutation":d,"item":gi,"byte":sub,"order":"reversed"}), rep, trace, journal);
+                        }
                     }
                 }
             }
